@@ -45,14 +45,15 @@ NOBODY = {100, 101, 204, 304}
 # ---- program generation ---------------------------------------------------------------------------------------------
 
 def item_lists(maxlen):
-    atoms = [('s', ''), ('s', 'a'), ('b', b''), ('b', b'b'), ('raise',), ('resp', 404), ('resp', 200), ('err', 404), ('err', 500)]
+    atoms = [('s', ''), ('s', 'a'), ('b', b''), ('b', b'b'), ('raise',), ('resp', 404), ('resp', 200), ('err', 404), ('err', 500),
+             ('rresp', 202), ('rerr', 404)]          # rresp / rerr: the iterable RAISES a response / an HTTP error at that point
     out = [[]]
 
     def ok(lst):
         kind = None
         for it in lst:
             if kind is None:
-                if it[0] in ('raise', 'resp', 'err'):
+                if it[0] in ('raise', 'resp', 'err', 'rresp', 'rerr'):
                     kind = 'end'
                 elif it[1]:
                     kind = it[0]
@@ -292,6 +293,10 @@ def real_item(om, it):
         return om.HTTPResponse('r', it[1])
     if it[0] == 'err':
         return om.HTTPError(it[1], 't')
+    if it[0] == 'rresp':
+        raise om.HTTPResponse('r', it[1])
+    if it[0] == 'rerr':
+        raise om.HTTPError(it[1], 't')
     return it[1]
 
 
@@ -304,7 +309,7 @@ def real_value(om, v, rec):
     if k in ('str', 'bytes'):
         return v[1]
     if k == 'list':
-        return [real_item(om, it) for it in v[1]] if not any(it[0] == 'raise' for it in v[1]) else CIterNoClose(om, v[1])
+        return [real_item(om, it) for it in v[1]] if not any(it[0] in ('raise', 'rresp', 'rerr') for it in v[1]) else CIterNoClose(om, v[1])
     if k == 'gen':
         def g():
             for it in v[1]:
@@ -384,9 +389,9 @@ def ev(v, status, cfg):
     first = items[i]
     if first[0] == 'raise':
         return errpage(500, cfg) + (False,)
-    if first[0] == 'resp':
+    if first[0] in ('resp', 'rresp'):
         return (first[1], b'r', None, False)
-    if first[0] == 'err':
+    if first[0] in ('err', 'rerr'):
         return errpage(first[1], cfg) + (False,)
     body = b''.join((x[1].encode('utf8') if x[0] == 's' else x[1]) for x in items[i:])
     return (status, body, None, k in ('citer', 'citer2'))
